@@ -14,7 +14,10 @@ def meta(pid):
     tree = ast.parse(open(p).read())
     for node in tree.body:
         if isinstance(node, ast.Assign) and any(getattr(t, "id", None) == "MANIFEST" for t in node.targets):
-            return ast.literal_eval(node.value)
+            v = node.value
+            if isinstance(v, ast.Call):
+                return {kw.arg: ast.literal_eval(kw.value) for kw in v.keywords}
+            return ast.literal_eval(v)
     return None
 
 checks, na = [], []
